@@ -50,7 +50,18 @@ def pair_case(draw):
         modes = list(draw(st.permutations(list(range(n))))[:k])
         ops_.insert(draw(st.integers(0, len(ops_))), ["Interferometer", [spec.enc_matrix(draw(gen.unitary(k))[1])], modes, {}])
     edit = draw(st.sampled_from(EDITS))
+    if n >= 2 and edit in ("swap_targets", "rebuild", "flip_dagger") and draw(st.booleans()):
+        # a beamsplitter at the special angles equivalence() treats separately (50:50, phase pi/2: symmetric under a swap of its targets)
+        th = draw(st.sampled_from([np.pi / 4, -np.pi / 4, 3 * np.pi / 4, 5 * np.pi / 4, 0.3]))
+        ph = draw(st.sampled_from([np.pi / 2, 0.0, -np.pi / 2, 3 * np.pi / 2, 0.3, np.pi]))
+        pos = draw(st.integers(0, len(ops_)))
+        ops_.insert(pos, ["BSgate", [float(th), float(ph)], list(draw(st.permutations(list(range(n))))[:2]), {}])
+        special_idx = [i for i, o in enumerate(ops_) if len(o[2]) == 2].index(pos)
+    else:
+        special_idx = None
     idx = draw(st.integers(0, len(ops_) - 1))
+    if special_idx is not None and edit == "swap_targets" and draw(st.integers(0, 3)) > 0:
+        idx = special_idx  # the edit hits the special beamsplitter
     extra = draw(gen.op_spec(n, ALPH, "ps"))
     other = draw(gen.op_list(n, ALPH, "ps", 1, 5))
     newmode = draw(st.integers(0, n - 1))
